@@ -27,7 +27,8 @@ def _int(x, what):
 
 
 class Encoder:
-    def __init__(self, run, h2_origins=(), proxy_origin=None):
+    def __init__(self, run, h2_origins=(), proxy_origin=None, nokeep=()):
+        self.nokeep = list(nokeep)
         self.run = run
         self.names = list(run.order)
         self.rid = {n: i + 1 for i, n in enumerate(self.names)}
@@ -66,6 +67,7 @@ class Encoder:
             "poolTO": [_int((c.timeout or {}).get("pool"), "pool timeout") for c in calls],
             "mux": sorted(self.origin_name(i) for i in self.h2_origins),
             "muxGuess": guess,
+            "noKeep": sorted(self.rid[n] for n in self.nokeep),
         }
 
     def conn_state(self, c):
@@ -128,12 +130,19 @@ class Encoder:
         evs = []
         last = None
         marks = {}  # task -> ret
+        got = set()
+        bend = {}
+        closing_pool = False
         for e in self.run.events:
             k = e["ev"]
             if k == "Init":
                 last = self.obs(e["obs"])
             elif k == "Return":
                 marks[e["r"]] = self.ret(e)
+            elif k == "Got":
+                got.add(e["r"])
+            elif k == "BodyEnd":
+                bend[e["r"]] = "full" if e.get("complete") else "partial"
             elif k == "Fault":
                 if e["r"] in self.rid:
                     evs.append({"e": "Fault", "r": self.rid[e["r"]], "obs": last})
@@ -149,13 +158,23 @@ class Encoder:
                     if s["sid"] == e["sid"]:
                         owner = s["owner"]
                 evs.append({"e": "PeerClose", "c": owner, "obs": last})
+            elif k == "Step" and e["task"] == "closer":
+                last = self.obs(e["obs"])
+                if closing_pool:
+                    evs.append({"e": "PoolClose", "obs": last})
+                    closing_pool = False
+            elif k == "PoolCloseStart":
+                closing_pool = True
             elif k == "Step":
                 last = self.obs(e["obs"])
                 t = e["task"]
-                evs.append({"e": "Q", "r": self.rid.get(t, 0), "ret": marks.pop(t, ""), "obs": last})
+                evs.append({"e": "Q", "r": self.rid.get(t, 0), "ret": marks.pop(t, ""), "got": t in got, "bend": bend.pop(t, ""), "obs": last})
+                got.discard(t)
             elif k == "End":
                 last = self.obs(e["obs"])
-                evs.append({"e": "Q", "r": 0, "ret": "", "obs": last})
+                gated = [self.rid[n] for n in self.run.waiting_gate if n in self.rid]
+                net = sorted({self.rid[op.task] for op in self.run.net.pending if op.task in self.rid and op.fut is not None and not op.fut.done()})
+                evs.append({"e": "End", "gated": gated, "netblocked": net, "obs": last})
         return {"cfg": self.cfg(), "ev": evs}
 
 
@@ -171,6 +190,8 @@ CONSTANTS
   MaxClock = 1000
   Faults = 99
   Abandons = TRUE
+  CancelStyles <- TrStyles
+  WithPoolClose = TRUE
   Deviations <- {dev}
   K = {k}
   Relax <- {relax}
@@ -186,3 +207,59 @@ def trace_cfg(dev="TrDev", k=9, relax="TrRelax"):
 
 def validate(traces, **kw):
     return tlc.validate_traces("MCPoolTrace", trace_cfg(), traces, **kw)
+
+
+DEVIATIONS = {
+    "D1": "KeepaliveCountsAll",
+    "D2": "AbandonAssignedFresh",
+    "D3": "TimeoutAfterAssign",
+    "D4": "CancelAtGateLeavesNew",
+    "D5": "EstabFailLeaksStream",
+    "D6": "CancelInEstabLeaksStream",
+    "D7": "NativeCancelInShield",
+    "D8": "ReconnectOnFailed",
+    "D9": "WaiterCancelFlagsFailed",
+}
+
+
+def diagnose(traces):
+    """For traces the intended design rejects: which NAMED deviations of the specification
+    (with the invariants they are known to break switched off) explain them?
+    Round 1: every single deviation, and all of them together.  Round 2 (only for traces that
+    no single deviation explains but all together do): leave-one-out, which yields the set of
+    deviations that are each necessary.
+    Returns per trace: (sorted deviation names - alternatives if found in round 1, a necessary
+    set if found in round 2, [] if unexplained -, verdict with all on, longest prefix, mode)."""
+    from concurrent.futures import ThreadPoolExecutor
+
+    if not traces:
+        return []
+    keys = list(DEVIATIONS) + ["DevAll"]
+
+    def one(args):
+        k, trs = args
+        res, _ = tlc.validate_traces("MCPoolTrace", trace_cfg(dev=k, relax="RelaxInv"), trs, shards=max(1, min(3, (len(trs) + 9) // 10)))
+        return k, res
+
+    with ThreadPoolExecutor(max_workers=6) as ex:
+        results = dict(ex.map(one, [(k, traces) for k in keys]))
+    out = [None] * len(traces)
+    need2 = []
+    for i in range(len(traces)):
+        ok = sorted(DEVIATIONS[k] for k in DEVIATIONS if results[k][i][0] == "ACCEPT")
+        allv = results["DevAll"][i]
+        if ok:
+            out[i] = (ok, allv[0], allv[1], "single")
+        elif allv[0] == "ACCEPT":
+            need2.append(i)
+        else:
+            out[i] = ([], allv[0], allv[1], "unexplained")
+    if need2:
+        sub = [traces[i] for i in need2]
+        with ThreadPoolExecutor(max_workers=6) as ex:
+            r2 = dict(ex.map(one, [("No" + k, sub) for k in DEVIATIONS]))
+        for j, i in enumerate(need2):
+            necessary = sorted(DEVIATIONS[k] for k in DEVIATIONS if r2["No" + k][j][0] != "ACCEPT")
+            allv = results["DevAll"][i]
+            out[i] = (necessary, allv[0], allv[1], "set")
+    return out
